@@ -11,7 +11,7 @@ def run(tier, seed, replay=None):
     prove(check, 'theories/Props_C13.v', THEOREMS)
     differential(check, 'C13', 'backoff', 'c13', tier, seed, replay, 100, 4000, extract_between_bars)
     check.coverage['rule'] = ('configurations (strategy, factor, step, max_attempts, max_delay, calls) drawn from boundary values '
-                              '{0,1,2^31,2^32+-1,2^63,u64::MAX,Duration::MAX,...}, steps at the overflow boundary of attempt k (Duration::MAX / k give or take a few nanoseconds or a second, k = 1..64) and random ones, all from one seeded PRNG; each runs the real '
+                              '{0,1,2^31,2^32+-1,2^63,u64::MAX,Duration::MAX,...}, steps at the overflow boundary of attempt k (Duration::MAX / k give or take a few nanoseconds or a second, k = 1..64) and random ones, all from one seeded PRNG; the three builder setters are applied in one of their six orders; each runs the real '
                               'BackoffStrategy iterator for calls+1 calls; non-trivial = distinct configuration that yielded >= 2 attempts')
     check.coverage['trusted_base'] = TRUSTED_BASE_COMMON + [
         'modelled, not verified: core::time::Duration and the u32/u64/u128 primitives (saturating_mul, checked_pow, checked_mul, try_from, Duration::new, min) as defined in theories/RustArith.v; validated on every run by the differential against the real iterator',
